@@ -98,6 +98,9 @@ def normalised(m):
         c.atoms_order
         str(c)
     put('canonicalize', lambda c: (pre(c), c.canonicalize(logging=True))[1] if _haslog(c.canonicalize) else (pre(c), c.canonicalize())[1])
+    put('canonicalize_kekule', lambda c: (pre(c), c.canonicalize(keep_kekule=True))[1])
+    put('canonicalize_notaut', lambda c: (pre(c), c.canonicalize(fix_tautomers=False))[1])
+    put('implicify', lambda c: (pre(c), c.implicify_hydrogens())[1])
     put('standardize', lambda c: (pre(c), c.standardize(logging=True))[1])
     put('standardize_charges', lambda c: (pre(c), c.standardize_charges(logging=True))[1])
     put('neutralize', lambda c: (pre(c), c.neutralize(logging=True))[1] if hasattr(c, 'neutralize') else None)
